@@ -1,112 +1,55 @@
 import RawPanelVerif.Lemmas.MonoOps
 import RawPanelVerif.Lemmas.MonoTextXform
+import RawPanelVerif.Lemmas.MonoFont
+import RawPanelVerif.Lemmas.MonoTextBox
 import RawPanelVerif.Spec.TextSpec
+import RawPanelVerif.Driver.Text
 /-!
 # C20 — Text metrics bound the ink; rendering is translation- and scale-consistent
 
-* `ink_in_box` — for every string without line feed, every font number, proportional/fixed mode, spacing, text size
-  `h ≥ 0`, any `v`, any starting canvas / bounding box / cursor, with wrapping off: every stored bit outside
-  `clip ∩ [cx, cx + StrWidth + h) × [cy, cy + v·cellHeight)` is unchanged by `RenderText` — the ink lies in the box callers
-  centre and right-align with (`StrWidth + h` = sum of the advances).  No "unclipped" hypothesis is needed: clipping only
-  removes ink.  `lineHeight_eq` identifies `v·cellHeight` with the reported `LineHeight()` for sizes `0 ≤ v < 2^24`.
-* `font_tables_sized`, `glyph_facts`, `glyph_index_in_range` — over the font tables regenerated from /repo on every run:
-  every table has 96 glyphs of the declared width and every table index computed by `GetCharWidth`, `GetCharStart`,
-  `DrawChar` for any byte is inside the table (no index panic for any string).
-* `scale_with_spacing_counterexample` — the recorded genuine finding C20.scale_with_spacing: with extra character
-  spacing 1 at size 2 the rendering of "ab" is not the size-1 rendering enlarged (advance is `h·w + s`, not `h·(w+s)`).
+How the string reaches the renderer: `Model/GoRunes.lean` models `for _, r := range str` + `byte(r)` (U+010A is a line feed,
+malformed bytes are `0xFD`); the theorems below are about the resulting byte(rune) list, any list.
 
-* `translation` — on a blank canvas (any size), any font/mode/spacing/size, wrapping off, background = text colour
-  (how every caller in the repo draws text), any string without line feed: if no glyph is rejected by `DrawChar`'s
-  whole-glyph off-canvas test at either cursor (`NoEarly`, implied by "the text box lies on the canvas":
-  `noEarly_of_fits`), then the rendering at cursor `(cx+dx, cy+dy)` read at `(X+dx, Y+dy)` equals the rendering at
-  `(cx, cy)` read at `(X, Y)` — for every pair of on-canvas pixels.  `translation_fits` is the corollary for boxes
-  that fit.
-* `scale_zero_spacing` — with extra character spacing 0: the rendering at text size `(h, v)` read at
-  `(cx + h·I + p, cy + v·J + q)` (`0 ≤ p < h`, `0 ≤ q < v`) equals the size-`(1,1)` rendering read at `(cx + I, cy + J)`:
-  every source pixel becomes an `h × v` block.  With spacing ≠ 0 this is false of the code (the finding below), so
-  spacing = 0 is exactly the guard the code needs.
+**Ink in the box**
+* `ink_in_box` — string without line feed, every font number, mode, spacing, size `h ≥ 0`, any `v`, any starting canvas /
+  bounding box / cursor, wrapping off: every stored bit outside `clip ∩ [cx, cx + StrWidth + h) × [cy, cy + v·cellHeight)` is
+  unchanged (`StrWidth + h` = sum of the advances; `lineHeight_eq`: `v·cellHeight` = `LineHeight()` for `0 ≤ v < 2^24`).
+  No "unclipped" hypothesis: clipping only removes ink.
+* `renderText_lf`, `ink_in_box_lines` — byte 10 moves the cursor to column 0 of the next line, so a string is rendered line by
+  line; **any** string (no `10 ∉ s`): every stored bit outside the union of the line boxes (`lineBoxAt`: line `n` of
+  `lines s` at `x_0 = cx`, `x_n = 0`, `n` line advances down, width `StrWidth(segment) + h`) is unchanged.
+* `font_tables_sized`, `glyph_facts`, `glyph_index_in_range`, `drawChar_index_in_range`, `charWidth_le` — over the font tables
+  regenerated from /repo on every run (proofs in `Lemmas/MonoFont.lean`).
+
+**Translation** (exact pixel statements)
+* `translation_any` — **any** well-formed starting canvas and bounding box, background = text colour, wrapping off, no glyph
+  rejected by `DrawChar`'s whole-glyph test (`NoEarlyL`): for stored bits `(X,Y)`, `(X+dx,Y+dy)` inside the clip either both
+  renderings paint them or both leave the canvas's value.  Strings with line feeds: for `dx = 0`; `translation_lines`: in
+  general the first line moves by `(dx,dy)`, the others — cursor column 0 by command — by `(0,dy)`.
+* `translation`, `translation_fits` — the blank-canvas instances (`noEarly_of_fits`: boxes on the canvas suffice).
+
+**Scale**
+* `scale_general` — any starting canvas: size `(h,v)` with extra spacing `h·k` against size 1 with extra spacing `k`
+  (line feeds: for `cx = 0`); `scale_zero_spacing` is `k = 0` on a blank canvas; `scale_single_glyph`: one glyph, any two
+  spacing settings.  `scale_with_spacing_counterexample` — the recorded finding C20.scale_with_spacing: with the *same*
+  spacing `k ≠ 0` on both sides the clause is false of the code (advance `h·w + s`, not `h·(w+s)`).
+
+**Other**
+* `strWidth_append`; `wrap_irrelevant` — wrapping on = wrapping off when the box plus `8·h` fits the bounding-box width;
+  `wrap_box_fits_counterexample`: "the box fits" alone is not enough ("#." in the 8×8 font on 12 columns).
+* `spec_check_holds` — the executable Spec itself: for strings without line feed, spacing 0, `1 ≤ h`, `1 ≤ v < 2^24`, any
+  cursor / offset, any blank canvas whose width is a multiple of 8, `Spec.Text.check` answers `none` on the model's three
+  renderings with the model's reported metrics (`check_of_facts` is the Spec-side half, usable for any renderer).
+  NOT YET PROVED at Spec level: strings with line feeds (the per-line clauses of the Spec are evaluated on every run; the
+  model-level per-line theorems are `ink_in_box_lines`, `translation_lines`, `scale_general`), canvas widths not a multiple of 8.
 -/
 namespace RawPanelVerif.C20
 open RawPanelVerif RawPanelVerif.Mono RawPanelVerif.Gen
 
-/-- sum of the cursor advances = `StrWidth + h` -/
-def advSum (t : TextSt) : List Nat → Int
-  | [] => 0
-  | ch :: rest => ((charWidth t ch : Int) * t.tsH + t.spacing) + advSum t rest
+/-! ## cursor advances, the text box and its frame lemma: proved in `Lemmas/MonoTextBox.lean` -/
 
-theorem foldl_adv (t : TextSt) (s : List Nat) (acc : Int) :
-    s.foldl (fun w ch => w + (charWidth t ch : Int) * t.tsH + t.spacing) acc = acc + advSum t s := by
-  induction s generalizing acc with
-  | nil => simp [advSum]
-  | cons ch rest ih => simp only [List.foldl_cons, advSum]; rw [ih]; omega
-
-theorem strWidth_eq (t : TextSt) (s : List Nat) : strWidth t s = advSum t s - t.tsH := by
-  unfold strWidth; rw [foldl_adv]; omega
-
-theorem advSum_nonneg (t : TextSt) (h : 0 ≤ t.tsH) (s : List Nat) : 0 ≤ advSum t s := by
-  induction s with
-  | nil => simp [advSum]
-  | cons ch rest ih =>
-    unfold advSum
-    have : (0 : Int) ≤ (charWidth t ch : Int) * t.tsH := Int.mul_nonneg (by omega) h
-    omega
-
-theorem advSum_cx (t : TextSt) (x : Int) (s : List Nat) : advSum { t with cx := x } s = advSum t s := by
-  induction s with
-  | nil => rfl
-  | cons ch rest ih => unfold advSum; rw [ih]; rfl
-
-theorem advSum_cxy (t : TextSt) (x y : Int) (s : List Nat) : advSum { t with cx := x, cy := y } s = advSum t s := by
-  induction s with
-  | nil => rfl
-  | cons ch rest ih => unfold advSum; rw [ih]; rfl
-
-/-- the text box in absolute coordinates (before clipping) for cursor `(cx,cy)` -/
-def textBox (g : Geom) (t : TextSt) (w : Int) : Region :=
-  boxR g (t.cx + g.bx) (t.cy + g.byy) (t.cx + g.bx + w) (t.cy + g.byy + (t.fp.bbH : Int) * t.tsV)
-
-theorem renderText_box (s : List Nat) (hs : 10 ∉ s) (c : Canvas) (hwf : c.WF) (t : TextSt)
-    (hw : t.wrap = false) (hH : 0 ≤ t.tsH) :
-    Touch (textBox c.geo t (advSum t s)) c (renderText (c, t) s).1 := by
-  unfold renderText
-  induction s generalizing c t with
-  | nil => exact Touch.refl _ c hwf
-  | cons ch rest ih =>
-    have hch : ch ≠ 10 := fun e => hs (by simp [e])
-    have hrest : 10 ∉ rest := fun e => hs (by simp [e])
-    rw [List.foldl_cons]
-    have hadv : (0 : Int) ≤ (charWidth t ch : Int) * t.tsH := Int.mul_nonneg (by omega) hH
-    have hrn := advSum_nonneg t hH rest
-    by_cases h13 : ch = 13
-    · -- CR: skipped, cursor unchanged
-      have hw13 : writeChar (c, t) ch = (c, t) := by
-        unfold writeChar; simp [h13]
-      rw [hw13]
-      refine (ih hrest c hwf t hw hH).mono ?_
-      rintro X Y ⟨hc, q1, q2, q3, q4⟩
-      refine ⟨hc, q1, ?_, q3, q4⟩
-      unfold advSum; omega
-    · -- a drawn character
-      have hwc : writeChar (c, t) ch =
-          (drawChar c t t.cx t.cy ch t.tcol t.tbg t.tsH t.tsV,
-            { t with cx := t.cx + t.tsH * (charWidth t ch : Int) + t.spacing }) := by
-        unfold writeChar; simp [hch, h13, hw]
-      rw [hwc]
-      have t1 := drawChar_touch c hwf t t.cx t.cy ch t.tcol t.tbg t.tsH t.tsV
-      have t1' : Touch (textBox c.geo t (advSum t (ch :: rest))) c
-          (drawChar c t t.cx t.cy ch t.tcol t.tbg t.tsH t.tsV) := by
-        refine t1.mono ?_
-        rintro X Y ⟨hc, q1, q2, q3, q4⟩
-        refine ⟨hc, q1, ?_, q3, q4⟩
-        unfold advSum; omega
-      have t2 := ih hrest _ t1.wf { t with cx := t.cx + t.tsH * (charWidth t ch : Int) + t.spacing } hw hH
-      rw [t1.geo, advSum_cx] at t2
-      refine t1'.trans (t2.mono ?_)
-      rintro X Y ⟨hc, q1, q2, q3, q4⟩
-      have e : t.tsH * (charWidth t ch : Int) = (charWidth t ch : Int) * t.tsH := Int.mul_comm _ _
-      refine ⟨hc, ?_, ?_, q3, q4⟩
-      · simp only [] at q1; omega
-      · simp only [] at q2; unfold advSum; omega
+export RawPanelVerif.Mono (advSum foldl_adv strWidth_eq advSum_nonneg advSum_cx advSum_cxy textBox renderText_box
+  noEarly_of_fits lines linesBox renderText_lines_box advSum_app NoWrap renderText_nowrap noWrap_of_fits)
 
 /-- **Ink in box**: for a string without line feed rendered with wrapping off, every stored bit outside
 `clip ∩ [cx, cx + StrWidth + h) × [cy, cy + v·cellHeight)` keeps its value. -/
@@ -136,170 +79,12 @@ theorem lineHeight_eq (t : TextSt) (h0 : 0 ≤ t.tsV) (h1 : t.tsV < 16777216) (h
   rw [Nat.mod_eq_of_lt hlt]
   simp [Int.mul_comm]
 
-/-! ## Font tables (regenerated from /repo) -/
+/-! ## Font tables (regenerated from /repo): proved in `Lemmas/MonoFont.lean`, available here under the same names -/
 
-/-- the three cases of `SetFont` -/
-theorem fontParams_cases (n : Int) :
-    fontParams n = fontParams 1 ∨ fontParams n = fontParams 2 ∨ fontParams n = fontParams 0 := by
-  unfold fontParams
-  by_cases h1 : n = 1
-  · left; simp [h1]
-  · by_cases h2 : n = 2
-    · right; left; simp [h2]
-    · right; right; simp [h1, h2]
-
-theorem font_tables_sized :
-    (fontParams 0).table.size = 96 * (fontParams 0).memW ∧
-    (fontParams 1).table.size = 96 * (fontParams 1).memW ∧
-    (fontParams 2).table.size = 96 * (fontParams 2).memW ∧
-    (∀ n : Int, (fontParams n).first = 32 ∧ (fontParams n).last = 127 ∧ (fontParams n).bbH ≤ 8 ∧
-      1 ≤ (fontParams n).memW ∧ (fontParams n).memW ≤ (fontParams n).bbW ∧ (fontParams n).bbW ≤ 8) := by
-  refine ⟨by decide +kernel, by decide +kernel, by decide +kernel, ?_⟩
-  intro n
-  rcases fontParams_cases n with h | h | h <;> rw [h] <;> decide +kernel
-
-/-- every table index `(ch - first) * memW + a` with `ch` in the font's range and `a < memW` is inside the table -/
-theorem glyph_index_in_range (n : Int) (ch a : Nat) (hr : (fontParams n).inRange ch = true)
-    (ha : a < (fontParams n).memW) :
-    (ch - (fontParams n).first) * (fontParams n).memW + a < (fontParams n).table.size := by
-  obtain ⟨s0, s1, s2, hall⟩ := font_tables_sized
-  obtain ⟨hf, hl, _, _, _, _⟩ := hall n
-  unfold FontParams.inRange at hr
-  simp only [Bool.and_eq_true, decide_eq_true_eq] at hr
-  rw [hf, hl] at hr
-  have hsz : (fontParams n).table.size = 96 * (fontParams n).memW := by
-    rcases fontParams_cases n with h | h | h
-    · rw [h]; exact s1
-    · rw [h]; exact s2
-    · rw [h]; exact s0
-  rw [hsz, hf]
-  have : ch - 32 ≤ 95 := by omega
-  calc (ch - 32) * (fontParams n).memW + a < (ch - 32) * (fontParams n).memW + (fontParams n).memW := by omega
-    _ = (ch - 32 + 1) * (fontParams n).memW := by rw [Nat.add_mul]; simp
-    _ ≤ 96 * (fontParams n).memW := Nat.mul_le_mul_right _ (by omega)
-
-
-/-- text state with a given font number / mode (the only fields glyph metrics read) -/
-def tf (n : Int) (prop : Bool) : TextSt := { font := n, prop := prop }
-
-/-- per glyph: blank-column counts are consistent, and the width of a blank glyph fits the table row -/
-def glyphOk (n : Int) (ch : Nat) : Bool :=
-  let p := fontParams n
-  let off := (ch - p.first) * p.memW
-  let sb := startBlanks p off p.memW 0
-  let eb := endBlanks p off p.memW 0
-  (sb == p.memW || sb + eb < p.memW) && sb ≤ p.memW &&
-  (constrain (p.bbW / 2 : Nat) 3 p.bbW).toNat ≤ p.memW + 1 &&
-  ((p.tight == 1 && p.memW + 1 == p.bbW) || (p.tight == 0 && p.memW == p.bbW))
-
-/-- checked over the regenerated tables: all 96 glyphs of all three fonts -/
-theorem glyph_facts : ∀ n ∈ [0, 1, 2], ∀ ch ∈ List.range 128, 32 ≤ ch → glyphOk (n : Int) ch = true := by
-  decide +kernel
-
-theorem glyph_facts' (n : Int) (ch : Nat) (h1 : 32 ≤ ch) (h2 : ch ≤ 127) : glyphOk n ch = true := by
-  have key : ∀ m : Int, m ∈ [0, 1, 2] → glyphOk m ch = true :=
-    fun m hm => glyph_facts m hm ch (by simp; omega) h1
-  have hdep : ∀ m : Int, fontParams n = fontParams m → glyphOk n ch = glyphOk m ch := by
-    intro m hm; unfold glyphOk; rw [hm]
-  rcases fontParams_cases n with h | h | h
-  · rw [hdep 1 h]; exact key 1 (by simp)
-  · rw [hdep 2 h]; exact key 2 (by simp)
-  · rw [hdep 0 h]; exact key 0 (by simp)
-
-/-- **No index panic in `DrawChar`**: for any font number, mode, byte and column the font-table index it reads is
-inside the (regenerated) table. -/
-theorem drawChar_index_in_range (n : Int) (prop : Bool) (ch i : Nat)
-    (hr : (fontParams n).inRange ch = true) (hi : i < charWidth (tf n prop) ch)
-    (hskip : ¬ ((prop || decide ((fontParams n).tight > 0)) = true ∧ i + 1 = charWidth (tf n prop) ch)) :
-    (ch - (fontParams n).first) * (fontParams n).memW + charStart (tf n prop) ch + i < (fontParams n).table.size := by
-  obtain ⟨_, _, _, hall⟩ := font_tables_sized
-  obtain ⟨hf, hl, _, hm1, hmw, hbw⟩ := hall n
-  have hr' := hr
-  unfold FontParams.inRange at hr'
-  simp only [Bool.and_eq_true, decide_eq_true_eq] at hr'
-  rw [hf, hl] at hr'
-  have hg := glyph_facts' n ch hr'.1 hr'.2
-  unfold glyphOk at hg
-  simp only [Bool.and_eq_true, Bool.or_eq_true, beq_iff_eq, decide_eq_true_eq] at hg
-  obtain ⟨⟨⟨hsb, hsble⟩, hspace⟩, htight⟩ := hg
-  have key : charStart (tf n prop) ch + i < (fontParams n).memW := by
-    unfold charWidth charStart tf TextSt.fp at *
-    simp only [hr, Bool.true_and] at hi hskip ⊢
-    cases prop with
-    | true =>
-      simp only [if_true, Bool.true_or, true_and] at hi hskip ⊢
-      split at hi
-      · rename_i hblank
-        rw [if_pos hblank]
-        rw [if_pos hblank] at hskip
-        have : (constrain ((fontParams n).bbW / 2 : Nat) 3 (fontParams n).bbW).toNat % 256 ≤ (fontParams n).memW + 1 :=
-          Nat.le_trans (Nat.mod_le _ _) hspace
-        omega
-      · rename_i hblank
-        rw [if_neg hblank] at hskip ⊢
-        rcases hsb with hsb | hsb
-        · exact absurd hsb hblank
-        · omega
-    | false =>
-      simp only [Bool.false_eq_true, if_false, Bool.false_or] at hi hskip ⊢
-      rcases htight with ⟨ht, hm⟩ | ⟨ht, hm⟩
-      · have : (fontParams n).tight > 0 := by omega
-        simp only [this, decide_true, true_and] at hskip
-        omega
-      · omega
-  have := glyph_index_in_range n ch (charStart (tf n prop) ch + i) hr key
-  omega
+export RawPanelVerif.Mono (fontParams_cases font_tables_sized glyph_index_in_range tf glyphOk glyph_facts glyph_facts'
+  drawChar_index_in_range fp_pos)
 
 /-! ## Translation and scale consistency (exact pixel equalities) -/
-
-theorem fp_pos (n : Int) : 1 ≤ (fontParams n).bbW ∧ 1 ≤ (fontParams n).bbH := by
-  rcases fontParams_cases n with h | h | h <;> rw [h] <;> decide +kernel
-
-/-- a text whose box `[cx, cx + advSum) × [cy, …)` starts on the canvas and ends inside its width is never rejected by
-`DrawChar`'s whole-glyph test -/
-theorem noEarly_of_fits (W H : Nat) (s : List Nat) (t : TextSt) (hh : 1 ≤ t.tsH) (hv : 1 ≤ t.tsV)
-    (hx : 0 ≤ t.cx) (hy : 0 ≤ t.cy) (hyH : t.cy ≤ H) (hfit : t.cx + advSum t s ≤ W) :
-    NoEarly (geo0 W H) t s := by
-  induction s generalizing t with
-  | nil => simp [NoEarly]
-  | cons ch rest ih =>
-    simp only [NoEarly]
-    have hadv : advSum t (ch :: rest) = ((charWidth t ch : Int) * t.tsH + t.spacing) + advSum t rest := rfl
-    have hnn := advSum_nonneg t (by omega) rest
-    have hcwh : (0 : Int) ≤ (charWidth t ch : Int) * t.tsH := Int.mul_nonneg (by omega) (by omega)
-    by_cases h13 : ch = 13
-    · simp only [h13, if_true]
-      exact ih t hh hv hx hy hyH (by rw [hadv] at hfit; omega)
-    · simp only [h13, if_false]
-      refine ⟨?_, ?_⟩
-      · unfold earlyRet getBWidth
-        have hg : (geo0 W H).bw = W := rfl
-        have hgW : (geo0 W H).W = W := rfl
-        have hgH : (geo0 W H).H = H := rfl
-        rw [hg, hgW, hgH]
-        have e1 : ((charWidth t ch : Int) - 1) * t.tsH = (charWidth t ch : Int) * t.tsH - t.tsH := by
-          rw [Int.sub_mul, Int.one_mul]
-        have ⟨p1, p2⟩ := fp_pos t.font
-        have b1 : (1 : Int) ≤ (t.fp.bbW : Int) * t.tsH := by
-          have : (1 : Int) * 1 ≤ (t.fp.bbW : Int) * t.tsH :=
-            Int.mul_le_mul (by unfold TextSt.fp; omega) hh (by omega) (by omega)
-          omega
-        have b2 : (1 : Int) ≤ (t.fp.bbH : Int) * t.tsV := by
-          have : (1 : Int) * 1 ≤ (t.fp.bbH : Int) * t.tsV :=
-            Int.mul_le_mul (by unfold TextSt.fp; omega) hv (by omega) (by omega)
-          omega
-        rw [e1]
-        split <;> omega
-      · apply ih
-        · exact hh
-        · exact hv
-        · show 0 ≤ t.cx + t.tsH * (charWidth t ch : Int) + t.spacing
-          rw [Int.mul_comm]; omega
-        · exact hy
-        · exact hyH
-        · rw [advSum_cx]
-          show t.cx + t.tsH * (charWidth t ch : Int) + t.spacing + advSum t rest ≤ W
-          rw [Int.mul_comm]; rw [hadv] at hfit; omega
 
 /-- **Translation consistency** (exact, every pixel pair on the canvas). -/
 theorem translation (W H : Nat) (t : TextSt) (s : List Nat) (hs : 10 ∉ s) (hw : t.wrap = false)
@@ -354,6 +139,241 @@ theorem scale_zero_spacing (W H : Nat) (t : TextSt) (s : List Nat) (hs : 10 ∉ 
 example : NoEarly (geo0 64 32) (atSize {} 2 2 2 1) [65, 90] ∧ NoEarly (geo0 64 32) (atSize {} 1 1 2 1) [65, 90] := by
   constructor <;> exact noEarly_of_fits 64 32 _ _ (by decide) (by decide) (by decide) (by decide) (by decide) (by decide +kernel)
 
+/-! ## Strings with line feeds: line by line -/
+
+export RawPanelVerif.Mono (renderText_lf)
+
+/-- the box of line `n` (segment `l`): cursor column `cx` for the first line, 0 for the others; `n` line advances down -/
+def lineBoxAt (g : Geom) (t : TextSt) (n : Nat) (l : List Nat) : Region := fun X Y =>
+  clipR g X Y ∧
+  (if n = 0 then t.cx else 0) + g.bx ≤ (X : Int) ∧ (X : Int) < (if n = 0 then t.cx else 0) + g.bx + (strWidth t l + t.tsH) ∧
+  t.cy + n * lineAdvance t + g.byy ≤ (Y : Int) ∧ (Y : Int) < t.cy + n * lineAdvance t + g.byy + (t.fp.bbH : Int) * t.tsV
+
+theorem linesBox_elim (g : Geom) (ls : List (List Nat)) (t : TextSt) (X Y : Nat) (h : linesBox g t ls X Y) :
+    ∃ n l, ls[n]? = some l ∧ lineBoxAt g t n l X Y := by
+  induction ls generalizing t with
+  | nil => exact h.elim
+  | cons l ls ih =>
+    rcases h with hb | hr
+    · refine ⟨0, l, rfl, ?_⟩
+      obtain ⟨hc, q1, q2, q3, q4⟩ := hb
+      unfold lineBoxAt
+      rw [strWidth_eq]
+      simp only [if_true]
+      exact ⟨hc, q1, by omega, by simp; omega, by simp; omega⟩
+    · obtain ⟨n, l', hn, hb⟩ := ih (nl t) hr
+      refine ⟨n + 1, l', by simpa using hn, ?_⟩
+      obtain ⟨hc, q1, q2, q3, q4⟩ := hb
+      have e0 : (nl t).cy = t.cy + lineAdvance t := rfl
+      have e1 : lineAdvance (nl t) = lineAdvance t := rfl
+      have e2 : (nl t).cx = 0 := rfl
+      have e3 : strWidth (nl t) l' = strWidth t l' := by
+        rw [strWidth_eq, strWidth_eq]
+        show advSum { t with cy := t.cy + lineAdvance t, cx := 0 } l' - t.tsH = _
+        have := advSum_cxy t 0 (t.cy + lineAdvance t) l'
+        rw [← this]
+      have e4 : (nl t).fp = t.fp := rfl
+      have e5 : (nl t).tsH = t.tsH := rfl
+      have e6 : (nl t).tsV = t.tsV := rfl
+      simp only [e0, e1, e2, e3, e4, e5, e6] at q1 q2 q3 q4
+      have em : ((n + 1 : Nat) : Int) * lineAdvance t = (n : Int) * lineAdvance t + lineAdvance t := by
+        rw [Int.natCast_add, Int.add_mul]; simp
+      unfold lineBoxAt
+      rw [em]
+      have hn1 : ¬ (n + 1 = 0) := by omega
+      simp only [hn1, if_false]
+      refine ⟨hc, ?_, ?_, by omega, by omega⟩
+      · split at q1 <;> omega
+      · split at q2 <;> omega
+
+/-- **Ink in box, any string**: with wrapping off, every stored bit that lies in none of the line boxes — line `n` of the
+LF-separated segments `lines s` has the box `[x_n, x_n + StrWidth(segment_n) + h) × [cy + n·lineAdvance, … + v·cellHeight)`,
+`x_0 = cx`, `x_n = 0` — keeps its value.  Any canvas, bounding box, cursor, font, mode, spacing, size `h ≥ 0`. -/
+theorem ink_in_box_lines (s : List Nat) (c : Canvas) (hwf : c.WF) (t : TextSt)
+    (hw : t.wrap = false) (hH : 0 ≤ t.tsH) (X Y : Nat) (hX : X < c.geo.wib * 8) (hY : Y < c.geo.H)
+    (hout : ∀ n l, (lines s)[n]? = some l → ¬ lineBoxAt c.geo t n l X Y) :
+    getPx (renderText (c, t) s).1 X Y = getPx c X Y := by
+  refine (renderText_lines_box s c hwf t hw hH).same X Y hX hY ?_
+  intro hb
+  obtain ⟨n, l, hn, hbox⟩ := linesBox_elim c.geo (lines s) t X Y hb
+  exact hout n l hn hbox
+
+/-- `ink_in_box` is the one-line instance -/
+example (s : List Nat) (hs : 10 ∉ s) : lines s = [s] := Mono.lines_no_lf s hs
+
+/-- non-vacuity: "A⏎B" has two lines -/
+example : lines [65, 10, 66] = [[65], [66]] := by decide
+
+/-! ## Translation and scale on any canvas, any bounding box -/
+
+/-- **Translation, any starting canvas**: for a string without line feed (with line feeds: for `dx = 0`), wrapping off,
+background = text colour, no glyph rejected by `DrawChar`'s whole-glyph test at either cursor: for every pair of stored bits
+`(X,Y)`, `(X+dx, Y+dy)` inside the clip rectangle, either both are painted in the text colour by the respective rendering
+or both keep the value the starting canvas had there. -/
+theorem translation_any (c : Canvas) (hwf : c.WF) (t : TextSt) (s : List Nat) (hw : t.wrap = false)
+    (hbg : t.tbg = t.tcol) (dx dy : Int) (hlf : dx = 0 ∨ 10 ∉ s)
+    (hne : NoEarlyL c.geo t s) (hne' : NoEarlyL c.geo { t with cx := t.cx + dx, cy := t.cy + dy } s)
+    (X Y X' Y' : Nat) (hc : clipR c.geo X Y) (hc' : clipR c.geo X' Y')
+    (ex : (X' : Int) = X + dx) (ey : (Y' : Int) = Y + dy) :
+    (textR0L c.geo t s X Y →
+      getPx (renderText (c, { t with cx := t.cx + dx, cy := t.cy + dy }) s).1 X' Y' = (t.tcol != c.geo.inv) ∧
+      getPx (renderText (c, t) s).1 X Y = (t.tcol != c.geo.inv)) ∧
+    (¬ textR0L c.geo t s X Y →
+      getPx (renderText (c, { t with cx := t.cx + dx, cy := t.cy + dy }) s).1 X' Y' = getPx c X' Y' ∧
+      getPx (renderText (c, t) s).1 X Y = getPx c X Y) := by
+  have b1 := inClip_bounds hc
+  have b2 := inClip_bounds hc'
+  have hX : X < c.geo.wib * 8 := by have := hwf.1; omega
+  have hX' : X' < c.geo.wib * 8 := by have := hwf.1; omega
+  have hY : Y < c.geo.H := by omega
+  have hY' : Y' < c.geo.H := by omega
+  have pa := renderText_paintL s c hwf t hw hbg
+  have pb := renderText_paintL s c hwf { t with cx := t.cx + dx, cy := t.cy + dy } hw hbg
+  have sh := textR0L_shift c.geo s t dx dy hlf X Y X' Y' hc hc' ex ey
+  constructor
+  · intro hr
+    exact ⟨pb.inside X' Y' hX' hY' ((textRL_iff_textR0L _ s _ hne' X' Y').2 (sh.2 hr)),
+      pa.inside X Y hX hY ((textRL_iff_textR0L _ s _ hne X Y).2 hr)⟩
+  · intro hr
+    exact ⟨pb.same X' Y' hX' hY' (fun h => hr (sh.1 ((textRL_iff_textR0L _ s _ hne' X' Y').1 h))),
+      pa.same X Y hX hY (fun h => hr ((textRL_iff_textR0L _ s _ hne X Y).1 h))⟩
+
+/-- the painted region of `a ++ [LF] ++ b` is that of `a` at the cursor together with that of `b` at column 0 of the next line -/
+theorem textR0L_append_lf (g : Geom) (a b : List Nat) (ha : 10 ∉ a) (t : TextSt) (X Y : Nat) :
+    textR0L g t (a ++ 10 :: b) X Y ↔ (textR0L g t a X Y ∨ textR0L g (nl t) b X Y) := by
+  induction a generalizing t with
+  | nil => simp only [List.nil_append, textR0L, if_true, false_or]
+  | cons ch rest ih =>
+    have hch : ch ≠ 10 := fun e => ha (by simp [e])
+    have hrest : 10 ∉ rest := fun e => ha (by simp [e])
+    simp only [List.cons_append, textR0L, hch, if_false]
+    by_cases h13 : ch = 13
+    · simp only [h13, if_true]
+      exact ih hrest t
+    · simp only [h13, if_false]
+      rw [ih hrest, Mono.nl_cx]
+      exact ⟨fun h => by rcases h with h | h | h; exact Or.inl (Or.inl h); exact Or.inl (Or.inr h); exact Or.inr h,
+        fun h => by rcases h with (h | h) | h; exact Or.inl h; exact Or.inr (Or.inl h); exact Or.inr (Or.inr h)⟩
+
+/-- **Translation, line by line**: for `a ++ [LF] ++ b` (`a` without line feed) the painted region is the union of the
+first line's and the rest's; moving the cursor by `(dx, dy)` moves the first line by `(dx, dy)` and the rest — whose
+cursor column is 0 by command — by `(0, dy)`. -/
+theorem translation_lines (g : Geom) (a b : List Nat) (ha : 10 ∉ a) (t : TextSt) (dx dy : Int) :
+    (∀ X Y, textR0L g t (a ++ 10 :: b) X Y ↔ (textR0L g t a X Y ∨ textR0L g (nl t) b X Y)) ∧
+    (∀ X Y X' Y' : Nat, clipR g X Y → clipR g X' Y' → (X' : Int) = X + dx → (Y' : Int) = Y + dy →
+      (textR0L g { t with cx := t.cx + dx, cy := t.cy + dy } a X' Y' ↔ textR0L g t a X Y)) ∧
+    (∀ X Y Y' : Nat, clipR g X Y → clipR g X Y' → (Y' : Int) = Y + dy →
+      (textR0L g (nl { t with cx := t.cx + dx, cy := t.cy + dy }) b X Y' ↔ textR0L g (nl t) b X Y)) := by
+  refine ⟨fun X Y => textR0L_append_lf g a b ha t X Y, ?_, ?_⟩
+  · intro X Y X' Y' hc hc' ex ey
+    exact textR0L_shift g a t dx dy (Or.inr ha) X Y X' Y' hc hc' ex ey
+  · intro X Y Y' hc hc' ey
+    have e : nl { t with cx := t.cx + dx, cy := t.cy + dy } = { nl t with cx := (nl t).cx + 0, cy := (nl t).cy + dy } := by
+      unfold nl lineAdvance TextSt.fp
+      simp only [TextSt.mk.injEq, and_true, true_and]
+      constructor <;> omega
+    rw [e]
+    exact textR0L_shift g b (nl t) 0 dy (Or.inl rfl) X Y X Y' hc hc' (by omega) ey
+
+/-- **Scale consistency with the spacing scaled as well**, any starting canvas: the rendering at size `(h, v)` with extra
+spacing `h·k` read at `(cx + h·I + p, cy + v·J + q)` (`0 ≤ p < h`, `0 ≤ q < v`) and the size-1 rendering with extra spacing
+`k` read at `(cx + I, cy + J)` are either both painted or both left as the starting canvas had them.  Strings with line
+feeds: for `cx = 0`.  (With the *same* spacing `k ≠ 0` on both sides this is false: `scale_with_spacing_counterexample`.) -/
+theorem scale_general (c : Canvas) (hwf : c.WF) (t : TextSt) (s : List Nat) (hw : t.wrap = false)
+    (hbg : t.tbg = t.tcol) (h v : Int) (k sph : Nat) (hsp : (sph : Int) = h * k) (cx cy : Int) (hh : 0 < h) (hv : 0 < v)
+    (hlf : cx = 0 ∨ 10 ∉ s)
+    (hneh : NoEarlyL c.geo (atSizeSp t h v sph cx cy) s) (hne1 : NoEarlyL c.geo (atSizeSp t 1 1 k cx cy) s)
+    (I J p q : Int) (Xh Yh X1 Y1 : Nat) (hch : clipR c.geo Xh Yh) (hc1 : clipR c.geo X1 Y1)
+    (hp0 : 0 ≤ p) (hp : p < h) (hq0 : 0 ≤ q) (hq : q < v)
+    (eXh : (Xh : Int) = cx + c.geo.bx + h * I + p) (eYh : (Yh : Int) = cy + c.geo.byy + v * J + q)
+    (eX1 : (X1 : Int) = cx + c.geo.bx + I) (eY1 : (Y1 : Int) = cy + c.geo.byy + J) :
+    (textR0L c.geo (atSizeSp t 1 1 k cx cy) s X1 Y1 →
+      getPx (renderText (c, atSizeSp t h v sph cx cy) s).1 Xh Yh = (t.tcol != c.geo.inv) ∧
+      getPx (renderText (c, atSizeSp t 1 1 k cx cy) s).1 X1 Y1 = (t.tcol != c.geo.inv)) ∧
+    (¬ textR0L c.geo (atSizeSp t 1 1 k cx cy) s X1 Y1 →
+      getPx (renderText (c, atSizeSp t h v sph cx cy) s).1 Xh Yh = getPx c Xh Yh ∧
+      getPx (renderText (c, atSizeSp t 1 1 k cx cy) s).1 X1 Y1 = getPx c X1 Y1) := by
+  have b1 := inClip_bounds hch
+  have b2 := inClip_bounds hc1
+  have hXh : Xh < c.geo.wib * 8 := by have := hwf.1; omega
+  have hX1 : X1 < c.geo.wib * 8 := by have := hwf.1; omega
+  have hYh : Yh < c.geo.H := by omega
+  have hY1 : Y1 < c.geo.H := by omega
+  have pa := renderText_paintL s c hwf (atSizeSp t h v sph cx cy) hw hbg
+  have pb := renderText_paintL s c hwf (atSizeSp t 1 1 k cx cy) hw hbg
+  have sc := textR0L_scale c.geo s t h k sph hsp v cx cy hh hv hlf 0 0 I J p q Xh Yh X1 Y1 hch hc1 hp0 hp hq0 hq eXh eYh eX1 eY1
+  simp only [Int.mul_zero, Int.add_zero] at sc
+  have tc : (atSizeSp t h v sph cx cy).tcol = t.tcol := rfl
+  have tc1 : (atSizeSp t 1 1 k cx cy).tcol = t.tcol := rfl
+  rw [tc] at pa; rw [tc1] at pb
+  constructor
+  · intro hr
+    exact ⟨pa.inside Xh Yh hXh hYh ((textRL_iff_textR0L _ s _ hneh Xh Yh).2 (sc.2 hr)),
+      pb.inside X1 Y1 hX1 hY1 ((textRL_iff_textR0L _ s _ hne1 X1 Y1).2 hr)⟩
+  · intro hr
+    exact ⟨pa.same Xh Yh hXh hYh (fun h => hr (sc.1 ((textRL_iff_textR0L _ s _ hneh Xh Yh).1 h))),
+      pb.same X1 Y1 hX1 hY1 (fun h => hr ((textRL_iff_textR0L _ s _ hne1 X1 Y1).1 h))⟩
+
+/-- **One glyph scales whatever the spacing settings are** (the spacing only moves the cursor *after* a glyph) -/
+theorem scale_single_glyph (g : Geom) (t : TextSt) (ch : Nat) (h v : Int) (sph sp1 : Nat) (cx cy : Int) (hh : 0 < h) (hv : 0 < v)
+    (I J p q : Int) (Xh Yh X1 Y1 : Nat) (hch : clipR g Xh Yh) (hc1 : clipR g X1 Y1)
+    (hp0 : 0 ≤ p) (hp : p < h) (hq0 : 0 ≤ q) (hq : q < v)
+    (eXh : (Xh : Int) = cx + g.bx + h * I + p) (eYh : (Yh : Int) = cy + g.byy + v * J + q)
+    (eX1 : (X1 : Int) = cx + g.bx + I) (eY1 : (Y1 : Int) = cy + g.byy + J) :
+    textR0L g (atSizeSp t h v sph cx cy) [ch] Xh Yh ↔ textR0L g (atSizeSp t 1 1 sp1 cx cy) [ch] X1 Y1 := by
+  simp only [textR0L]
+  by_cases h10 : ch = 10
+  · simp only [h10, if_true]
+  · by_cases h13 : ch = 13
+    · subst h13; simp
+    · simp only [h10, h13, if_false, or_false]
+      have := glyphR_scaleG g (atSizeSp t h v sph cx cy) (atSizeSp t 1 1 sp1 cx cy) rfl rfl h v cx cy 0 0 hh hv ch
+        I J p q Xh Yh X1 Y1 hch hc1 hp0 hp hq0 hq eXh eYh eX1 eY1
+      simp only [Int.mul_zero, Int.add_zero] at this
+      exact this
+
+/-- non-vacuity of `scale_general`: spacing 2 at size 2 against spacing 1 at size 1 ("ab", font 0): the pixel that refutes
+the same-spacing reading — (13,2) lit at size 2 — has its pre-image (6,1) lit here -/
+example :
+    let render := fun (h : Int) (sp : Nat) =>
+      let t : TextSt := { font := 0, prop := true, spacing := sp, tsH := h, tsV := h, wrap := false, tcol := true, tbg := true }
+      (renderText (newCanvas 32 18, t) [97, 98]).1
+    getPx (render 2 2) 14 2 = getPx (render 1 1) 7 1 ∧ getPx (render 2 2) 15 3 = getPx (render 1 1) 7 1 := by
+  decide +kernel
+
+/-! ## `StrWidth` of a concatenation; wrapping -/
+
+/-- `StrWidth(a ++ b) = StrWidth(a) + StrWidth(b) + h` (each width leaves out one trailing size step) -/
+theorem strWidth_append (t : TextSt) (a b : List Nat) : strWidth t (a ++ b) = strWidth t a + strWidth t b + t.tsH := by
+  rw [strWidth_eq, strWidth_eq, strWidth_eq, advSum_app]; omega
+
+theorem advSum_wrap (t : TextSt) (w : Bool) (s : List Nat) : advSum { t with wrap := w } s = advSum t s := by
+  induction s with
+  | nil => rfl
+  | cons ch rest ih =>
+    show ((charWidth t ch : Int) * t.tsH + t.spacing) + advSum { t with wrap := w } rest =
+      ((charWidth t ch : Int) * t.tsH + t.spacing) + advSum t rest
+    rw [ih]
+
+/-- **Wrapping is irrelevant when the text stays eight size steps clear of the right edge**: for a string without line
+feed whose box plus `8·h` fits inside the bounding-box width, `RenderText` with wrapping on produces the same canvas as
+with wrapping off.  (The wrap test after a glyph of width `cw` fires when fewer than `h·(cw − 1)` columns are left, before
+the next — possibly narrower — glyph is looked at; `cw ≤ 9`.) -/
+theorem wrap_irrelevant (c : Canvas) (hwf : c.WF) (t : TextSt) (s : List Nat) (hs : 10 ∉ s) (hh : 0 ≤ t.tsH)
+    (hfit : t.cx + advSum t s + 8 * t.tsH ≤ getBWidth c.geo) :
+    (renderText (c, { t with wrap := true }) s).1 = (renderText (c, { t with wrap := false }) s).1 := by
+  have hn : NoWrap c.geo { t with wrap := true } s :=
+    noWrap_of_fits c.geo s hs { t with wrap := true } hh (by rw [advSum_wrap]; exact hfit)
+  exact (renderText_nowrap s c hwf { t with wrap := true } rfl hn).1
+
+/-- "the text box fits" alone is **not** enough: "#." in the 8×8 font (advances 9 + 3 = 12) on a 12-pixel-wide canvas fits
+its box exactly, yet with wrapping on the `.` is drawn on the next line (after `#` only 3 < 8 columns are left) -/
+theorem wrap_box_fits_counterexample :
+    let t : TextSt := { font := 1, prop := true, wrap := true, tcol := true, tbg := true }
+    t.cx + advSum t [35, 46] ≤ getBWidth (newCanvas 12 16).geo ∧
+    (renderText (newCanvas 12 16, t) [35, 46]).1 ≠ (renderText (newCanvas 12 16, { t with wrap := false }) [35, 46]).1 := by
+  decide +kernel
+
 /-- The recorded genuine finding **C20.scale_with_spacing**: font 0, proportional, extra spacing 1, size 2, "ab":
 the rendering is not the size-1 rendering with every pixel enlarged 2×2 (the advance between glyphs is `h·w + s`,
 not `h·(w + s)`), while box and translation clauses hold. -/
@@ -364,6 +384,416 @@ theorem scale_with_spacing_counterexample :
     let px := fun (c : Canvas) (X Y : Nat) => getPx c X Y
     -- pixel (13,2) is lit at size 2 but its pre-image (6,1) at size 1 is blank
     px (render 2 0 0) 13 2 = true ∧ px (render 1 0 0) 6 1 = false := by
+  decide +kernel
+
+/-! ## The executable Spec itself, evaluated on the model's three renderings -/
+
+/-- the text state the check sets up for one rendering: `SetFont`, `SetTextSize`, spacing, wrap off, `SetTextColor(true)`,
+`SetCursor` (the call sequence of `Driver/Text.renderCase` and of the harness) -/
+def caseState (font : Int) (prop : Bool) (sp : Nat) (h v cx cy : Int) : TextSt :=
+  setCursor (setTextColor { setTextSize (setFont {} font prop) h v with spacing := sp % 256, wrap := false } true) cx cy
+
+/-- it is the driver's call sequence (`Driver/Text.lean`), so `spec_check_holds` is about the very renderings the run compares -/
+example (W H : Nat) (font : Int) (prop : Bool) (sp : Nat) (h v cx cy : Int) (s : List Nat) :
+    Driver.Text.renderCase W H font prop sp h v cx cy s = renderText (newCanvas W H, caseState font prop sp h v cx cy) s := rfl
+
+/-- the canvas bytes as the harness prints them -/
+def bytesU8 (c : Canvas) : Array UInt8 := c.bytes.map (fun b => UInt8.ofNat b.toNat)
+
+theorem bitAt_getPx (c : Canvas) (X Y : Nat) (hX : X < c.geo.wib * 8) :
+    Spec.Text.bitAt c.geo.wib (bytesU8 c) (X : Int) (Y : Int) = getPx c X Y := by
+  unfold Spec.Text.bitAt getPx bytesU8
+  rw [if_neg (by omega)]
+  simp only [Int.toNat_natCast]
+  rw [if_neg (by omega)]
+  have hb : ∀ i, ((c.bytes.map (fun b => UInt8.ofNat b.toNat)).getD i 0).toNat = (c.bytes.getD i 0).toNat := by
+    intro i
+    rw [Array.getD_eq_getD_getElem?, Array.getD_eq_getD_getElem?, Array.getElem?_map]
+    cases c.bytes[i]? with
+    | none => rfl
+    | some b =>
+      simp only [Option.map_some, Option.getD_some]
+      have := b.isLt
+      rw [UInt8.toNat_ofNat']
+      exact Nat.mod_eq_of_lt (by omega)
+  rw [hb]
+  generalize c.bytes.getD (Y * c.geo.wib + X / 8) 0 = b
+  rw [Nat.shiftRight_eq_div_pow]
+  have : b.getLsbD (7 - X % 8) = decide (b.toNat / 2 ^ (7 - X % 8) % 2 = 1) := by
+    rw [BitVec.getLsbD, Nat.testBit_eq_decide_div_mod_eq]
+  rw [this]
+  by_cases h : b.toNat / 2 ^ (7 - X % 8) % 2 = 1 <;> simp [h]
+
+theorem mem_textPixels (k : Spec.Text.Case) (p : Int × Int) (h : p ∈ Spec.Text.allPixels k) :
+    ∃ X Y : Nat, p = ((X : Int), (Y : Int)) ∧ X < k.wib * 8 ∧ Y < k.H := by
+  unfold Spec.Text.allPixels at h
+  simp only [List.mem_flatMap, List.mem_range, List.mem_map] at h
+  obtain ⟨Y, hY, X, hX, rfl⟩ := h
+  exact ⟨X, Y, rfl, hX, hY⟩
+
+/-- the band of a single line -/
+theorem lineIdx_one (cy lh Y : Int) (hl : 0 < lh) :
+    Spec.Text.lineIdx cy lh 1 Y = if cy ≤ Y ∧ Y < cy + lh then some 0 else none := by
+  unfold Spec.Text.lineIdx
+  by_cases h1 : Y < cy
+  · rw [if_pos (Or.inr h1), if_neg (by omega)]
+  · rw [if_neg (by omega)]
+    simp only []
+    by_cases h2 : Y < cy + lh
+    · have : (Y - cy) / lh = 0 := Int.ediv_eq_zero_of_lt (by omega) (by omega)
+      rw [this, if_pos (by decide), if_pos ⟨by omega, h2⟩]
+      rfl
+    · have : 1 ≤ (Y - cy) / lh := by
+        have := Int.le_ediv_of_mul_le hl (a := 1) (b := Y - cy) (by omega)
+        exact this
+      rw [if_neg (by omega), if_neg (by omega)]
+
+/-- the Spec's case record for a string without line feed (one segment) on a `W × H` canvas -/
+def oneLineCase (W H : Nat) (cx cy dx dy h v lh lh1 sw sw1 : Int) (sp glyphs : Nat) : Spec.Text.Case :=
+  { W := W, wib := (W + 7) / 8, H := H, cx := cx, cy := cy, dx := dx, dy := dy, h := h, v := v, lh := lh, lh1 := lh1,
+    segw := [sw], segw1 := [sw1], spacing := sp, glyphs := glyphs }
+
+theorem bitAt_inside {wib : Nat} {A : Array UInt8} {X Y : Int} (h : Spec.Text.bitAt wib A X Y = true) :
+    0 ≤ X ∧ X < wib * 8 ∧ 0 ≤ Y := by
+  unfold Spec.Text.bitAt at h
+  by_cases h1 : X < 0 ∨ Y < 0
+  · rw [if_pos h1] at h; exact absurd h (by decide)
+  · rw [if_neg h1] at h
+    simp only [] at h
+    by_cases h2 : X.toNat ≥ wib * 8
+    · rw [if_pos h2] at h; exact absurd h (by decide)
+    · omega
+
+/-- **From pixel facts to the executable Spec** (one line, canvas width a multiple of 8): if the three observed renderings
+have their ink in their boxes and — when unclipped — `B` is `A` translated and `A` is `C` enlarged, `Spec.Text.check`
+answers `none`. -/
+theorem check_of_facts (W H : Nat) (hW8 : W % 8 = 0) (cx cy dx dy h v lh lh1 sw sw1 : Int) (sp glyphs : Nat)
+    (A B C : Array UInt8) (hl : 0 < lh) (hl1 : 0 < lh1) (hlv : lh = v * lh1)
+    (fa : ∀ X Y : Int, Spec.Text.bitAt ((W + 7) / 8) A X Y = true → Y < H ∧ cx ≤ X ∧ X < cx + sw + h ∧ cy ≤ Y ∧ Y < cy + lh)
+    (fb : ∀ X Y : Int, Spec.Text.bitAt ((W + 7) / 8) B X Y = true →
+      Y < H ∧ cx + dx ≤ X ∧ X < cx + dx + sw + h ∧ cy + dy ≤ Y ∧ Y < cy + dy + lh)
+    (fc : ∀ X Y : Int, Spec.Text.bitAt ((W + 7) / 8) C X Y = true → Y < H ∧ cx ≤ X ∧ X < cx + sw1 + 1 ∧ cy ≤ Y ∧ Y < cy + lh1)
+    (ft : 0 ≤ cx → 0 ≤ cy → cy + lh ≤ H → cx + sw + h ≤ W → 0 ≤ cx + dx → 0 ≤ cy + dy → cy + dy + lh ≤ H → cx + dx + sw + h ≤ W →
+      ∀ X Y : Int, 0 ≤ X → X < W → 0 ≤ Y → Y < H → 0 ≤ X + dx → X + dx < W → 0 ≤ Y + dy → Y + dy < H →
+        Spec.Text.bitAt ((W + 7) / 8) B (X + dx) (Y + dy) = Spec.Text.bitAt ((W + 7) / 8) A X Y)
+    (fs : 0 ≤ cx → 0 ≤ cy → cy + lh ≤ H → cx + sw + h ≤ W → cy + lh1 ≤ H → cx + sw1 + 1 ≤ W → 1 ≤ h → 1 ≤ v →
+      ∀ I J p q : Int, 0 ≤ p → p < h → 0 ≤ q → q < v → 0 ≤ I → 0 ≤ J → cx + h * I + p < W → cy + v * J + q < H →
+        Spec.Text.bitAt ((W + 7) / 8) A (cx + h * I + p) (cy + v * J + q) = Spec.Text.bitAt ((W + 7) / 8) C (cx + I) (cy + J)) :
+    Spec.Text.check (oneLineCase W H cx cy dx dy h v lh lh1 sw sw1 sp glyphs) A B C = none := by
+  have hwib : ((W + 7) / 8 : Nat) * 8 = W := by omega
+  -- box clauses
+  have hbox : Spec.Text.boxOk (oneLineCase W H cx cy dx dy h v lh lh1 sw sw1 sp glyphs) A = true := by
+    unfold Spec.Text.boxOk oneLineCase
+    rw [List.all_eq_true]
+    intro p hp
+    obtain ⟨X, Y, rfl, _, _⟩ := mem_textPixels _ p hp
+    simp only []
+    cases hb : Spec.Text.bitAt ((W + 7) / 8) A (X : Int) (Y : Int) with
+    | false => rfl
+    | true =>
+      obtain ⟨_, a1, a2, a3, a4⟩ := fa _ _ hb
+      simp only [Bool.not_true, Bool.false_or]
+      unfold Spec.Text.inBoxes
+      simp only [List.length_singleton]
+      rw [lineIdx_one _ _ _ hl, if_pos ⟨a3, a4⟩]
+      simp only [Spec.Text.lineX, if_true, List.getD_cons_zero, Bool.and_eq_true, decide_eq_true_eq]
+      exact ⟨a1, a2⟩
+  have hbox1 : Spec.Text.boxOk1 (oneLineCase W H cx cy dx dy h v lh lh1 sw sw1 sp glyphs) C = true := by
+    unfold Spec.Text.boxOk1 oneLineCase
+    rw [List.all_eq_true]
+    intro p hp
+    obtain ⟨X, Y, rfl, _, _⟩ := mem_textPixels _ p hp
+    simp only []
+    cases hb : Spec.Text.bitAt ((W + 7) / 8) C (X : Int) (Y : Int) with
+    | false => rfl
+    | true =>
+      obtain ⟨_, a1, a2, a3, a4⟩ := fc _ _ hb
+      simp only [Bool.not_true, Bool.false_or]
+      unfold Spec.Text.inBoxes
+      simp only [List.length_singleton]
+      rw [lineIdx_one _ _ _ hl1, if_pos ⟨a3, a4⟩]
+      simp only [Spec.Text.lineX, if_true, List.getD_cons_zero, Bool.and_eq_true, decide_eq_true_eq]
+      exact ⟨a1, a2⟩
+  unfold Spec.Text.check
+  rw [hbox, hbox1]
+  simp only [Bool.not_true, Bool.false_eq_true, if_false]
+  cases hu : Spec.Text.unclipped (oneLineCase W H cx cy dx dy h v lh lh1 sw sw1 sp glyphs) with
+  | false => simp
+  | true =>
+    simp only [Bool.not_true, Bool.false_eq_true, if_false]
+    -- what "unclipped" says
+    unfold Spec.Text.unclipped Spec.Text.boxesFit oneLineCase at hu
+    simp only [List.length_singleton, List.range_one, List.all_cons, List.all_nil, Bool.and_true, Spec.Text.lineX, if_true,
+      List.getD_cons_zero, Bool.and_eq_true, decide_eq_true_eq, Int.natCast_one, Int.one_mul] at hu
+    obtain ⟨⟨⟨⟨⟨u1, u2, _, u3⟩, _, u4⟩, ⟨u5, u6, _, u7⟩, _, u8⟩, ⟨_, _, _, u9⟩, _, u10⟩, u11, u12⟩ := hu
+    have ft' := ft u1 u2 u3 u4 u5 u6 u7 u8
+    have fs' := fs u1 u2 u3 u4 u9 u10 u11 u12
+    have htr : Spec.Text.translateOk (oneLineCase W H cx cy dx dy h v lh lh1 sw sw1 sp glyphs) A B = true := by
+      unfold Spec.Text.translateOk oneLineCase
+      rw [Bool.and_eq_true, List.all_eq_true, List.all_eq_true]
+      constructor
+      · intro p hp
+        obtain ⟨X, Y, rfl, hX, hY⟩ := mem_textPixels _ p hp
+        simp only [List.length_singleton] at hX hY ⊢
+        rw [lineIdx_one _ _ _ hl]
+        by_cases hband : cy ≤ (Y : Int) - dy ∧ (Y : Int) - dy < cy + lh
+        · rw [if_pos hband]
+          simp only [Spec.Text.lineDx, if_true]
+          have hYs : 0 ≤ (Y : Int) - dy ∧ (Y : Int) - dy < H := by omega
+          rw [decide_eq_true hYs, Bool.true_and]
+          by_cases hXs : 0 ≤ (X : Int) - dx ∧ (X : Int) - dx < W
+          · have := ft' ((X : Int) - dx) ((Y : Int) - dy) hXs.1 hXs.2 hYs.1 hYs.2 (by omega) (by omega) (by omega) (by omega)
+            have e1 : (X : Int) - dx + dx = X := by omega
+            have e2 : (Y : Int) - dy + dy = Y := by omega
+            rw [e1, e2] at this
+            rw [this]; simp
+          · have hA : Spec.Text.bitAt ((W + 7) / 8) A ((X : Int) - dx) ((Y : Int) - dy) = false := by
+              cases hb : Spec.Text.bitAt ((W + 7) / 8) A ((X : Int) - dx) ((Y : Int) - dy) with
+              | false => rfl
+              | true => have := bitAt_inside hb; omega
+            have hB : Spec.Text.bitAt ((W + 7) / 8) B (X : Int) (Y : Int) = false := by
+              cases hb : Spec.Text.bitAt ((W + 7) / 8) B (X : Int) (Y : Int) with
+              | false => rfl
+              | true => obtain ⟨_, b1, b2, _, _⟩ := fb _ _ hb; omega
+            rw [hA, hB]; rfl
+        · rw [if_neg hband]
+          cases hb : Spec.Text.bitAt ((W + 7) / 8) B (X : Int) (Y : Int) with
+          | false => rfl
+          | true => obtain ⟨_, _, _, b3, b4⟩ := fb _ _ hb; omega
+      · intro p hp
+        obtain ⟨X, Y, rfl, hX, hY⟩ := mem_textPixels _ p hp
+        simp only [List.length_singleton] at hX hY ⊢
+        cases hb : Spec.Text.bitAt ((W + 7) / 8) A (X : Int) (Y : Int) with
+        | false => rfl
+        | true =>
+          obtain ⟨_, a1, a2, a3, a4⟩ := fa _ _ hb
+          rw [lineIdx_one _ _ _ hl, if_pos ⟨a3, a4⟩]
+          simp only [Spec.Text.lineDx, if_true, Bool.not_true, Bool.false_or, Bool.and_eq_true, decide_eq_true_eq]
+          have : (((W + 7) / 8 : Nat) : Int) * 8 = W := by omega
+          refine ⟨⟨⟨by omega, by omega⟩, by omega⟩, by omega⟩
+    have hsc : Spec.Text.scaleOk (oneLineCase W H cx cy dx dy h v lh lh1 sw sw1 sp glyphs) A C = true := by
+      unfold Spec.Text.scaleOk oneLineCase
+      rw [List.all_eq_true]
+      intro p hp
+      obtain ⟨X, Y, rfl, hX, hY⟩ := mem_textPixels _ p hp
+      simp only [List.length_singleton] at hX hY ⊢
+      rw [lineIdx_one _ _ _ hl]
+      by_cases hband : cy ≤ (Y : Int) ∧ (Y : Int) < cy + lh
+      · rw [if_pos hband]
+        simp only [Spec.Text.lineX, if_true, Int.natCast_zero, Int.zero_mul, Int.add_zero]
+        by_cases hi : (X : Int) - cx < 0
+        · rw [if_pos hi]
+          cases hb : Spec.Text.bitAt ((W + 7) / 8) A (X : Int) (Y : Int) with
+          | false => rfl
+          | true => obtain ⟨_, a1, _, _, _⟩ := fa _ _ hb; omega
+        · rw [if_neg hi]
+          have hh0 : 0 < h := by omega
+          have hv0 : 0 < v := by omega
+          have e1 := Int.emod_add_mul_ediv ((X : Int) - cx) h
+          have e2 := Int.emod_add_mul_ediv ((Y : Int) - cy) v
+          have m1 := Int.emod_nonneg ((X : Int) - cx) (by omega : h ≠ 0)
+          have m2 := Int.emod_lt_of_pos ((X : Int) - cx) hh0
+          have m3 := Int.emod_nonneg ((Y : Int) - cy) (by omega : v ≠ 0)
+          have m4 := Int.emod_lt_of_pos ((Y : Int) - cy) hv0
+          have d1 : 0 ≤ ((X : Int) - cx) / h := Int.ediv_nonneg (by omega) (by omega)
+          have d2 : 0 ≤ ((Y : Int) - cy) / v := Int.ediv_nonneg (by omega) (by omega)
+          have := fs' (((X : Int) - cx) / h) (((Y : Int) - cy) / v) (((X : Int) - cx) % h) (((Y : Int) - cy) % v)
+            m1 m2 m3 m4 d1 d2 (by omega) (by omega)
+          have ex : cx + h * (((X : Int) - cx) / h) + ((X : Int) - cx) % h = X := by omega
+          have ey : cy + v * (((Y : Int) - cy) / v) + ((Y : Int) - cy) % v = Y := by omega
+          rw [ex, ey] at this
+          rw [this]; simp
+      · rw [if_neg hband]
+        cases hb : Spec.Text.bitAt ((W + 7) / 8) A (X : Int) (Y : Int) with
+        | false => rfl
+        | true => obtain ⟨_, _, _, a3, a4⟩ := fa _ _ hb; omega
+    rw [htr, hsc]
+    simp
+
+/-- the text state of a case with spacing 0, spelled out -/
+def mkState (font : Int) (prop : Bool) (cx cy h v : Int) : TextSt :=
+  { font := font, prop := prop, spacing := 0, cx := cx, cy := cy, tcol := true, tbg := true, tsH := h, tsV := v, wrap := false }
+
+theorem caseState_eq (font : Int) (prop : Bool) (h v cx cy : Int) (hh : 1 ≤ h) (hv : 1 ≤ v) :
+    caseState font prop 0 h v cx cy = mkState font prop cx cy h v := by
+  unfold caseState setCursor setTextColor setTextSize setFont mkState
+  have h1 : h > 0 := by omega
+  have h2 : ¬ v = 0 := by omega
+  simp only [h1, h2, if_true, if_false]
+
+/-- a lit bit of a rendering on a blank `W × H` canvas (`W` a multiple of 8), read through the Spec's `bitAt`, lies inside
+the text box -/
+theorem bitAt_in_box (W H : Nat) (t : TextSt) (s : List Nat) (hs : 10 ∉ s) (hw : t.wrap = false) (hH : 0 ≤ t.tsH)
+    (X Y : Int) (hb : Spec.Text.bitAt ((W + 7) / 8) (bytesU8 (renderText (newCanvas W H, t) s).1) X Y = true) :
+    Y < H ∧ t.cx ≤ X ∧ X < t.cx + strWidth t s + t.tsH ∧ t.cy ≤ Y ∧ Y < t.cy + (t.fp.bbH : Int) * t.tsV := by
+  have hwf := newCanvas_wf' W H
+  have tb := renderText_box s hs (newCanvas W H) hwf t hw hH
+  have hgeo : (renderText (newCanvas W H, t) s).1.geo = geo0 W H := tb.geo
+  have hwib : (renderText (newCanvas W H, t) s).1.geo.wib = (W + 7) / 8 := by rw [hgeo]; rfl
+  obtain ⟨b1, b2, b3⟩ := bitAt_inside hb
+  obtain ⟨Xn, rfl⟩ := Int.eq_ofNat_of_zero_le b1
+  obtain ⟨Yn, rfl⟩ := Int.eq_ofNat_of_zero_le b3
+  have hXn : Xn < (renderText (newCanvas W H, t) s).1.geo.wib * 8 := by rw [hwib]; omega
+  rw [← hwib, bitAt_getPx _ Xn Yn hXn] at hb
+  -- rows beyond the buffer read as blank
+  have hYn : Yn < H := by
+    by_cases hy : Yn < H
+    · exact hy
+    · exfalso
+      have hsz : (renderText (newCanvas W H, t) s).1.bytes.size = (W + 7) / 8 * H := by
+        rw [tb.size]; simp [newCanvas]
+      unfold getPx at hb
+      rw [hwib] at hb hXn
+      have : (W + 7) / 8 * H ≤ Yn * ((W + 7) / 8) + Xn / 8 := by
+        have : H * ((W + 7) / 8) ≤ Yn * ((W + 7) / 8) := Nat.mul_le_mul_right _ (by omega)
+        rw [Nat.mul_comm] at this; omega
+      rw [Array.getD_eq_getD_getElem?, Array.getElem?_eq_none (by omega)] at hb
+      simp at hb
+  refine ⟨by omega, ?_⟩
+  have hXn' : Xn < (newCanvas W H).geo.wib * 8 := by rw [newCanvas_geo]; unfold geo0; simp only []; omega
+  have hYn' : Yn < (newCanvas W H).geo.H := by rw [newCanvas_geo]; exact hYn
+  have key := ink_in_box s hs (newCanvas W H) hwf t hw hH Xn Yn hXn' hYn'
+  rw [newCanvas_geo] at key
+  have b0 : (geo0 W H).bx = 0 := rfl
+  have b0' : (geo0 W H).byy = 0 := rfl
+  rw [b0, b0'] at key
+  simp only [Int.add_zero] at key
+  by_cases hin : (t.cx ≤ (Xn : Int) ∧ (Xn : Int) < t.cx + (strWidth t s + t.tsH)) ∧
+      (t.cy ≤ (Yn : Int) ∧ (Yn : Int) < t.cy + (t.fp.bbH : Int) * t.tsV)
+  · exact ⟨hin.1.1, by omega, hin.2.1, hin.2.2⟩
+  · rw [key hin, getPx_newCanvas] at hb
+    exact absurd hb (by decide)
+
+/-- **The executable Spec holds of the model's three renderings.**  For every font number, mode, string without line feed,
+sizes `1 ≤ h`, `1 ≤ v < 2^24`, cursor and offset, extra spacing 0, on every blank canvas whose width is a multiple of 8:
+`Spec.Text.check` — the predicate the run evaluates on the implementation's output — answers `none` on the renderings of the
+model (`A` at the cursor, `B` at the moved cursor, `C` at size 1) with the model's reported widths and line heights: ink in
+the box always, translation and scaling whenever the Spec's own `unclipped` test says the boxes lie on the canvas. -/
+theorem spec_check_holds (W H : Nat) (hW8 : W % 8 = 0) (font : Int) (prop : Bool) (h v cx cy dx dy : Int) (s : List Nat)
+    (hs : 10 ∉ s) (hh : 1 ≤ h) (hv : 1 ≤ v) (hv' : v < 16777216) (glyphs : Nat) :
+    Spec.Text.check
+      (oneLineCase W H cx cy dx dy h v (lineHeight (caseState font prop 0 h v cx cy)) (lineHeight (caseState font prop 0 1 1 cx cy))
+        (strWidth (caseState font prop 0 h v cx cy) s) (strWidth (caseState font prop 0 1 1 cx cy) s) 0 glyphs)
+      (bytesU8 (renderText (newCanvas W H, caseState font prop 0 h v cx cy) s).1)
+      (bytesU8 (renderText (newCanvas W H, caseState font prop 0 h v (cx + dx) (cy + dy)) s).1)
+      (bytesU8 (renderText (newCanvas W H, caseState font prop 0 1 1 cx cy) s).1) = none := by
+  rw [caseState_eq font prop h v cx cy hh hv, caseState_eq font prop h v (cx + dx) (cy + dy) hh hv,
+    caseState_eq font prop 1 1 cx cy (by omega) (by omega)]
+  -- the three text states
+  generalize hbase : mkState font prop 0 0 1 1 = base
+  have eA : mkState font prop cx cy h v = atSize base h v cx cy := by rw [← hbase]; rfl
+  have eB : mkState font prop (cx + dx) (cy + dy) h v =
+      { atSize base h v cx cy with cx := (atSize base h v cx cy).cx + dx, cy := (atSize base h v cx cy).cy + dy } := by
+    rw [← hbase]; rfl
+  have eC : mkState font prop cx cy 1 1 = atSize base 1 1 cx cy := by rw [← hbase]; rfl
+  rw [eA, eB, eC]
+  have hsp : base.spacing = 0 := by rw [← hbase]; rfl
+  have hwr : base.wrap = false := by rw [← hbase]; rfl
+  have hbg : base.tbg = base.tcol := by rw [← hbase]; rfl
+  have hfp : ∀ (a b c d : Int), (atSize base a b c d).fp = base.fp := fun _ _ _ _ => rfl
+  obtain ⟨hbw, hbh⟩ := fp_pos base.font
+  have hbh8 := (font_tables_sized.2.2.2 base.font).2.2.1
+  -- line heights
+  have elh : (lineHeight (atSize base h v cx cy) : Int) = (base.fp.bbH : Int) * v :=
+    lineHeight_eq (atSize base h v cx cy) (by show 0 ≤ v; omega) (by show v < 16777216; exact hv') (by unfold TextSt.fp atSize; simp only []; omega)
+  have elh1 : (lineHeight (atSize base 1 1 cx cy) : Int) = (base.fp.bbH : Int) * 1 :=
+    lineHeight_eq (atSize base 1 1 cx cy) (by show (0 : Int) ≤ 1; omega) (by show (1 : Int) < 16777216; omega) (by unfold TextSt.fp atSize; simp only []; omega)
+  have hbh1 : (1 : Int) ≤ (base.fp.bbH : Int) := by unfold TextSt.fp; omega
+  have hlpos : (0 : Int) < (base.fp.bbH : Int) * v := Int.mul_pos (by omega) (by omega)
+  -- widths
+  have esw := strWidth_eq (atSize base h v cx cy) s
+  have esw1 := strWidth_eq (atSize base 1 1 cx cy) s
+  have etsH : (atSize base h v cx cy).tsH = h := rfl
+  have etsH1 : (atSize base 1 1 cx cy).tsH = 1 := rfl
+  refine check_of_facts W H hW8 cx cy dx dy h v _ _ _ _ 0 glyphs _ _ _ (by rw [elh]; exact hlpos) (by rw [elh1]; omega)
+    (by rw [elh, elh1]; rw [Int.mul_one, Int.mul_comm]) ?_ ?_ ?_ ?_ ?_
+  · intro X Y hb
+    have := bitAt_in_box W H (atSize base h v cx cy) s hs hwr (by show 0 ≤ h; omega) X Y hb
+    rw [elh]
+    exact this
+  · intro X Y hb
+    have := bitAt_in_box W H { atSize base h v cx cy with cx := (atSize base h v cx cy).cx + dx, cy := (atSize base h v cx cy).cy + dy }
+      s hs hwr (by show 0 ≤ h; omega) X Y hb
+    rw [elh]
+    have e1 : strWidth { atSize base h v cx cy with cx := (atSize base h v cx cy).cx + dx, cy := (atSize base h v cx cy).cy + dy } s =
+        strWidth (atSize base h v cx cy) s := by
+      rw [strWidth_eq, strWidth_eq, advSum_cxy]
+    rw [e1] at this
+    exact this
+  · intro X Y hb
+    have := bitAt_in_box W H (atSize base 1 1 cx cy) s hs hwr (by show (0 : Int) ≤ 1; omega) X Y hb
+    rw [elh1]
+    exact this
+  · -- translation
+    intro u1 u2 u3 u4 u5 u6 u7 u8 X Y x0 x1 y0 y1 x2 x3 y2 y3
+    rw [esw, etsH] at u4 u8
+    rw [elh] at u3 u7
+    obtain ⟨Xn, rfl⟩ := Int.eq_ofNat_of_zero_le x0
+    obtain ⟨Yn, rfl⟩ := Int.eq_ofNat_of_zero_le y0
+    obtain ⟨Xn', hXn'⟩ := Int.eq_ofNat_of_zero_le x2
+    obtain ⟨Yn', hYn'⟩ := Int.eq_ofNat_of_zero_le y2
+    rw [hXn', hYn']
+    have hneA : NoEarly (geo0 W H) (atSize base h v cx cy) s :=
+      noEarly_of_fits W H s _ (by show 1 ≤ h; exact hh) (by show 1 ≤ v; exact hv) (by show 0 ≤ cx; exact u1) (by show 0 ≤ cy; exact u2)
+        (by show cy ≤ H; omega) (by show cx + advSum (atSize base h v cx cy) s ≤ W; omega)
+    have hneB : NoEarly (geo0 W H) { atSize base h v cx cy with cx := (atSize base h v cx cy).cx + dx, cy := (atSize base h v cx cy).cy + dy } s :=
+      noEarly_of_fits W H s _ (by show 1 ≤ h; exact hh) (by show 1 ≤ v; exact hv) (by show 0 ≤ cx + dx; exact u5) (by show 0 ≤ cy + dy; exact u6)
+        (by show cy + dy ≤ H; omega) (by rw [advSum_cxy]; show cx + dx + advSum (atSize base h v cx cy) s ≤ W; omega)
+    have key := translation W H (atSize base h v cx cy) s hs hwr hbg dx dy hneA hneB Xn Yn Xn' Yn' (by omega) (by omega) (by omega) (by omega)
+      (by omega) (by omega)
+    have gA : (renderText (newCanvas W H, atSize base h v cx cy) s).1.geo.wib = (W + 7) / 8 := by
+      rw [(renderText_box s hs (newCanvas W H) (newCanvas_wf' W H) (atSize base h v cx cy) hwr (by show 0 ≤ h; omega)).geo]; rfl
+    have gB : (renderText (newCanvas W H, { atSize base h v cx cy with cx := (atSize base h v cx cy).cx + dx, cy := (atSize base h v cx cy).cy + dy }) s).1.geo.wib = (W + 7) / 8 := by
+      rw [(renderText_box s hs (newCanvas W H) (newCanvas_wf' W H)
+        { atSize base h v cx cy with cx := (atSize base h v cx cy).cx + dx, cy := (atSize base h v cx cy).cy + dy } hwr (by show 0 ≤ h; omega)).geo]; rfl
+    have r1 := bitAt_getPx (renderText (newCanvas W H, atSize base h v cx cy) s).1 Xn Yn (by rw [gA]; omega)
+    have r2 := bitAt_getPx (renderText (newCanvas W H, { atSize base h v cx cy with cx := (atSize base h v cx cy).cx + dx, cy := (atSize base h v cx cy).cy + dy }) s).1
+      Xn' Yn' (by rw [gB]; omega)
+    rw [gA] at r1; rw [gB] at r2
+    rw [r1, r2]
+    exact key
+  · -- scaling
+    intro u1 u2 u3 u4 u9 u10 u11 u12 I J p q p0 p1 q0 q1 i0 j0 xw yh
+    rw [esw, etsH] at u4
+    rw [esw1, etsH1] at u10
+    rw [elh] at u3
+    rw [elh1] at u9
+    have hI : I ≤ h * I := by
+      have : 0 ≤ (h - 1) * I := Int.mul_nonneg (by omega) i0
+      rw [Int.sub_mul, Int.one_mul] at this; omega
+    have hJ : J ≤ v * J := by
+      have : 0 ≤ (v - 1) * J := Int.mul_nonneg (by omega) j0
+      rw [Int.sub_mul, Int.one_mul] at this; omega
+    have hI0 : 0 ≤ h * I := Int.mul_nonneg (by omega) i0
+    have hJ0 : 0 ≤ v * J := Int.mul_nonneg (by omega) j0
+    obtain ⟨Xh, hXh⟩ := Int.eq_ofNat_of_zero_le (a := cx + h * I + p) (by omega)
+    obtain ⟨Yh, hYh⟩ := Int.eq_ofNat_of_zero_le (a := cy + v * J + q) (by omega)
+    obtain ⟨X1, hX1⟩ := Int.eq_ofNat_of_zero_le (a := cx + I) (by omega)
+    obtain ⟨Y1, hY1⟩ := Int.eq_ofNat_of_zero_le (a := cy + J) (by omega)
+    rw [hXh, hYh, hX1, hY1]
+    have hneh : NoEarly (geo0 W H) (atSize base h v cx cy) s :=
+      noEarly_of_fits W H s _ (by show 1 ≤ h; exact hh) (by show 1 ≤ v; exact hv) (by show 0 ≤ cx; exact u1) (by show 0 ≤ cy; exact u2)
+        (by show cy ≤ H; omega) (by show cx + advSum (atSize base h v cx cy) s ≤ W; omega)
+    have hne1 : NoEarly (geo0 W H) (atSize base 1 1 cx cy) s :=
+      noEarly_of_fits W H s _ (by show (1 : Int) ≤ 1; omega) (by show (1 : Int) ≤ 1; omega) (by show 0 ≤ cx; exact u1) (by show 0 ≤ cy; exact u2)
+        (by show cy ≤ H; omega) (by show cx + advSum (atSize base 1 1 cx cy) s ≤ W; omega)
+    have key := scale_zero_spacing W H base s hs hwr hbg hsp h v cx cy (by omega) (by omega) hneh hne1 I J p q Xh Yh X1 Y1
+      (by omega) (by omega) (by omega) (by omega) p0 p1 q0 q1 hXh.symm hYh.symm hX1.symm hY1.symm
+    have gA : (renderText (newCanvas W H, atSize base h v cx cy) s).1.geo.wib = (W + 7) / 8 := by
+      rw [(renderText_box s hs (newCanvas W H) (newCanvas_wf' W H) (atSize base h v cx cy) hwr (by show 0 ≤ h; omega)).geo]; rfl
+    have gC : (renderText (newCanvas W H, atSize base 1 1 cx cy) s).1.geo.wib = (W + 7) / 8 := by
+      rw [(renderText_box s hs (newCanvas W H) (newCanvas_wf' W H) (atSize base 1 1 cx cy) hwr (by show (0 : Int) ≤ 1; omega)).geo]; rfl
+    have r1 := bitAt_getPx (renderText (newCanvas W H, atSize base h v cx cy) s).1 Xh Yh (by rw [gA]; omega)
+    have r2 := bitAt_getPx (renderText (newCanvas W H, atSize base 1 1 cx cy) s).1 X1 Y1 (by rw [gC]; omega)
+    rw [gA] at r1; rw [gC] at r2
+    rw [r1, r2]
+    exact key
+
+/-- non-vacuity: for "AZ", font 0, size 2×2 at (2,1) moved by (3,2) on a 64×40 canvas the Spec's `unclipped` test is true, so
+`spec_check_holds` speaks about all four clauses there -/
+example : Spec.Text.unclipped
+    (oneLineCase 64 40 2 1 3 2 2 2 (lineHeight (caseState 0 true 0 2 2 2 1)) (lineHeight (caseState 0 true 0 1 1 2 1))
+      (strWidth (caseState 0 true 0 2 2 2 1) [65, 90]) (strWidth (caseState 0 true 0 1 1 2 1) [65, 90]) 0 2) = true := by
   decide +kernel
 
 end RawPanelVerif.C20
